@@ -1,7 +1,8 @@
 import CanopenModel.Pdo.Bits
+import CanopenModel.Pdo.Lookup
 import CanopenModel.Driver.C04
 namespace Canopen.Driver.C05
-open Canopen Canopen.Codec Canopen.Pdo
+open Canopen Canopen.Codec Canopen.Pdo Canopen.Pdo.Lookup
 
 /-- layout spelled `t:len,t:len,…` -/
 def parseLayout1 (s : String) : Option (List (Nat × Nat)) :=
@@ -27,8 +28,91 @@ def showOpt : Option Bytes → String
   | some bs => s!"ok {toHex bs}"
   | none => "err"
 
+/-! ### access through a key (`kget` / `kset`) -/
+
+/-- entry `t:len:index:sub:parent:name`; parent `-` = a plain variable, `r<name>` / `a<name>` = member
+    of the record / array `<name>` -/
+def parseEntry (e : String) : Option MVar :=
+  match e.splitOn ":" with
+  | [t, l, ix, sb, par, nm] => do
+    let t ← t.toNat?; let l ← l.toNat?; let ix ← ix.toNat?; let sb ← sb.toNat?
+    let par ← (if par = "-" then some none
+               else match par.toList with
+                 | 'r' :: p => some (some p)
+                 | 'a' :: p => some (some p)
+                 | _ => none)
+    pure { typ := t, len := l, index := ix, sub := sb, parent := par, own := nm.toList }
+  | _ => none
+
+/-- maps separated by `/`, entries by `,`, `-` = a map without entries -/
+def parseMaps (s : String) : Option (List (List MVar)) :=
+  (s.splitOn "/").mapM fun m => if m = "-" then some [] else (m.splitOn ",").mapM parseEntry
+
+def parseFrames (s : String) : Option (List Bytes) := (s.splitOn "/").mapM parseHex
+
+/-- `m<j>` the j-th map directly, `t` / `r` `node.tpdo[key]` / `node.rpdo[key]`, `p<k>` `node.pdo[key]`
+    with the first k maps being receive maps -/
+def parseHow (s : String) : Option How :=
+  match s.toList with
+  | ['t'] => some (.coll .numbered)
+  | ['r'] => some (.coll .numbered)
+  | 'p' :: k => (String.ofList k).toNat?.map fun k => .coll (.legacy k)
+  | 'm' :: j => (String.ofList j).toNat?.map fun j => .direct j
+  | _ => none
+
+/-- `n<decimal>` an int key, `s<chars>` a str key -/
+def parseKey (s : String) : Option Key :=
+  match s.toList with
+  | 'n' :: k => (String.ofList k).toNat?.map .int
+  | 's' :: cs => some (.str cs)
+  | _ => none
+
+def howOk (h : How) (maps : List (List MVar)) : Bool :=
+  match h with
+  | .direct j => j < maps.length
+  | .coll (.legacy k) => k ≤ maps.length
+  | .coll .numbered => true
+
+def showFrames (fs : List Bytes) : String := String.intercalate "/" (fs.map toHex)
+
+def showMiss (h : How) (maps : List (List MVar)) (key : Key) : String :=
+  match resolve h maps key with
+  | .map j => s!"ok map {j}"
+  | _ => "err"
+
+def parseVal (k v : String) : Option Val :=
+  match k with
+  | "int" => (parseInt v).map .int
+  | "bool" => (parseBool v).map .bool
+  | "real" => (parseNat v).map .real
+  | _ => none
+
+def stepKeyed (args : List String) : String :=
+  match args with
+  | ["kget", h, k, ms, fs] => match parseHow h, parseKey k, parseMaps ms, parseFrames fs with
+    | some h, some key, some maps, some frames =>
+      if howOk h maps && frames.length == maps.length then
+        match keyedRead h maps frames key with
+        | some (mi, i, some v) => s!"ok {mi} {i} {C04.showVal v}"
+        | some (mi, i, none) => s!"ok {mi} {i} err"
+        | none => showMiss h maps key
+      else "bad-op"
+    | _, _, _, _ => "bad-op"
+  | ["kset", h, k, ms, fs, kind, v] =>
+    match parseHow h, parseKey k, parseMaps ms, parseFrames fs, parseVal kind v with
+    | some h, some key, some maps, some frames, some val =>
+      if howOk h maps && frames.length == maps.length then
+        match keyedWrite h maps frames key val with
+        | some (mi, i, some fs') => s!"ok {mi} {i} {showFrames fs'}"
+        | some (mi, i, none) => s!"ok {mi} {i} err"
+        | none => showMiss h maps key
+      else "bad-op"
+    | _, _, _, _, _ => "bad-op"
+  | _ => "bad-op"
+
 /-- ops: `lay layout` → offsets and frame size; `get layout frame i`;
-    `set layout frame i (int|bool|real) v` -/
+    `set layout frame i (int|bool|real) v`;
+    `kget how key maps frames`, `kset how key maps frames (int|bool|real) v` (access through a key) -/
 def step (args : List String) : String :=
   match args with
   | ["lay", l] => match parseLayout l with
@@ -56,6 +140,6 @@ def step (args : List String) : String :=
           | none => "bad-op")
        | _, _ => "bad-op")
     | _, _, _ => "bad-op"
-  | _ => "bad-op"
+  | _ => stepKeyed args
 
 end Canopen.Driver.C05
